@@ -29,7 +29,8 @@ def declare_signature_classes(w, related_kind=None):
     w.cls('FieldSignature', {'field_name': K.Str, 'field_type': FTYPE, 'field_attrs': ATTRS,
                              'related_model': related_kind}, module=SIG)
     w.cls('ModelSignature', {'model_name': K.Str, 'table_name': K.Opt(K.Str),
-                             '_field_sigs': K.Map(K.Str, K.Ref('FieldSignature'))}, module=SIG)
+                             '_field_sigs': K.Map(K.Str, K.Ref('FieldSignature')),
+                             'unique_together': K.Seq(K.Seq(K.Str))}, module=SIG)
     w.cls('AppSignature', {'app_id': K.Str, 'legacy_app_label': K.Opt(K.Str),
                            '_model_sigs': K.Map(K.Str, K.Ref('ModelSignature'))}, module=SIG)
     w.cls('ProjectSignature', {'_app_sigs': K.Map(K.Str, K.Ref('AppSignature'))}, module=SIG)
@@ -200,15 +201,48 @@ def build():
             % NEEDS_INITIAL_CHG],
         observe=['self.field_attrs', 'self.initial', 'self.field_type',
                  'type_changed(self, simulation.get_field_sig(self.model_name, self.field_name))'])
+    w.kinds['Int'] = K.Int
+    w.spec_funcs['has'] = seq_has
     w.contract(
-        'DeleteField.simulate', module=DELF, serves=['C12'],
+        'DeleteField.simulate', module=DELF, serves=['C12', 'C05'],
         params={'self': K.Ref('DeleteField'), 'simulation': K.Ref('Simulation')},
         raises={'SimulationFailure': True, 'MissingSignatureError': True},
-        modifies=['ModelSignature._field_sigs'],
-        abstract={'for unique_together_entry in model_sig.unique_together:': ['new_unique_together = 0'],
-                  'new_unique_together = []': ['new_unique_together = 0'],
-                  'model_sig.unique_together = new_unique_together': ['new_unique_together = 0']},
+        modifies=['ModelSignature._field_sigs', 'ModelSignature.unique_together[simulation.get_model_sig(self.model_name)]'],
+        locals={'new_unique_together': K.Seq(K.Seq(K.Str)), 'new_entry': K.Seq(K.Str)},
+        ghost_before={'for unique_together_entry in model_sig.unique_together:': [
+            'UT = model_sig.unique_together',
+            # witnesses: where[x, n] = the new entry that keeps member n of old entry x; src[j] = the old entry behind new entry j
+            'where = fun(Int, Str, lambda x, n: 0)', 'src = fun(Int, lambda j: 0)']},
+        ghost_in_body={'new_unique_together.append(new_entry)': [
+            'where = fun(Int, Str, lambda x, n: ite(x == i, len(new_unique_together) - 1, where[x, n]))',
+            'src = fun(Int, lambda j: ite(j == len(new_unique_together) - 1, i, src[j]))',
+            'assert same(sel(new_unique_together, len(new_unique_together) - 1), new_entry)'],
+                       'new_entry = tuple(': [
+            # the filtered entry holds exactly the other names of the entry
+            'assert forall(Str, lambda n: has(new_entry, n) == (has(unique_together_entry, n) and n != self.field_name))']},
+        invariants={1: LoopInv('for unique_together_entry in model_sig.unique_together:', index='i', clauses=[
+            'same(i_seq, UT)', 'self.field_name == old(self.field_name)',
+            'model_sig is old(simulation.get_model_sig(self.model_name))',
+            'forall(Ref_Model, lambda m: m._field_sigs == old(m._field_sigs) and same(m.unique_together, old(m.unique_together)))',
+            'forall(range(len(new_unique_together)), lambda j: not has(sel(new_unique_together, j), self.field_name))',
+            'forall(range(i), lambda x: forall(Str, lambda n: implies(has(sel(UT, x), n) and n != self.field_name, '
+            '       0 <= where[x, n] and where[x, n] < len(new_unique_together) and '
+            '       has(sel(new_unique_together, where[x, n]), n))))',
+            'forall(range(len(new_unique_together)), lambda j: 0 <= src[j] and src[j] < i and forall(Str, lambda n: '
+            '       implies(has(sel(new_unique_together, j), n), has(sel(UT, src[j]), n))))',
+        ])},
         ensures=[
+            # unique_together: the deleted field is struck from every entry, every other member stays, nothing is invented
+            'forall(range(len(MSIG.unique_together)), lambda j: not has(sel(MSIG.unique_together, j), self.field_name))'
+            .replace('MSIG', 'old(simulation.get_model_sig(self.model_name))'),
+            'forall(range(len(old(simulation.get_model_sig(self.model_name).unique_together))), lambda x: forall(Str, lambda n: implies('
+            '       has(sel(old(simulation.get_model_sig(self.model_name).unique_together), x), n) and n != self.field_name, '
+            '       exists(range(len(MSIG.unique_together)), lambda j: has(sel(MSIG.unique_together, j), n)))))'
+            .replace('MSIG', 'old(simulation.get_model_sig(self.model_name))'),
+            'forall(range(len(MSIG.unique_together)), lambda j: forall(Str, lambda n: implies(has(sel(MSIG.unique_together, j), n), '
+            '       exists(range(len(old(simulation.get_model_sig(self.model_name).unique_together))), lambda x: '
+            '              has(sel(old(simulation.get_model_sig(self.model_name).unique_together), x), n)))))'
+            .replace('MSIG', 'old(simulation.get_model_sig(self.model_name))'),
             # a primary key is never deleted
             'not truthy(old(simulation.get_field_sig(self.model_name, self.field_name).get_attr_value("primary_key")))',
             # exactly the named field of the named model goes away
@@ -217,13 +251,14 @@ def build():
             '       not (m is old(simulation.get_model_sig(self.model_name)) and k == self.field_name), '
             '       (k in m._field_sigs) == old(k in m._field_sigs) and '
             '       implies(k in m._field_sigs, m._field_sigs[k] is old(m._field_sigs[k])))))'],
-        note='unique_together rewriting abstracted away (Meta bookkeeping)')
+        note='unique_together is a list of lists of field names (tuples and lists are not distinguished)')
 
     add_gate(w)
     add_small(w)
     fam = Family('contracts.sigsim', w)
     fam.replay['ChangeField.simulate'] = replay_change_field_simulate
     fam.replay['AddField.simulate'] = replay_add_field_simulate
+    fam.replay['DeleteField.simulate'] = replay_delete_field_simulate
     fam.syntactic.append(Syntactic('run_mutation_swallows_only_cannot_simulate', ['C12'], syn_run_mutation,
                                    'AppMutator.run_mutation/run_mutations and BaseMutation.run_simulation contain no except clause '
                                    'other than "except CannotSimulate" (SimulationFailure propagates to the command)'))
@@ -231,6 +266,24 @@ def build():
                                    'effect obligation no_exec: no function of the prepare chain calls cursor.execute / run_sql(execute=True) / '
                                    'an executor context'))
     return fam
+
+
+def seq_has(it, e, n):
+    """has(e, n): the list of strings e contains n - an uninterpreted predicate with its defining axioms (a term the
+    solver can match on, unlike an inlined existential)."""
+    import z3
+    ln, arr = e.terms
+    f = it.p.ctx.ufunc('has!str', z3.IntSort(), arr.sort(), z3.StringSort(), z3.BoolSort())
+    if 'has!str' not in it.p.pure_axioms:
+        it.p.pure_axioms.add('has!str')
+        L, A, N, Q = z3.Int('has!L'), z3.Const('has!A', arr.sort()), z3.String('has!N'), z3.Int('has!Q')
+        wit = it.p.ctx.ufunc('has!wit', z3.IntSort(), arr.sort(), z3.StringSort(), z3.IntSort())
+        w_ = wit(L, A, N)
+        it.p.assume(z3.ForAll([L, A, N], z3.Implies(f(L, A, N), z3.And(0 <= w_, w_ < L, z3.Select(A, w_) == N)),
+                              patterns=[f(L, A, N)]))
+        it.p.assume(z3.ForAll([L, A, N, Q], z3.Implies(z3.And(0 <= Q, Q < L, z3.Select(A, Q) == N), f(L, A, N)),
+                              patterns=[z3.MultiPattern(f(L, A, N), z3.Select(A, Q))]))
+    return K.vbool(f(ln, arr, n.t))
 
 
 def add_gate(w):
@@ -374,6 +427,40 @@ def replay_change_field_simulate(label, inputs):
             results.append({'field_type': getattr(new_type, '__name__', None), 'accepted': False})
     bad = [r for r in results if r['accepted']]
     return {'reproduced': bool(bad), 'clause': 'null=False without initial must be rejected', 'runs': results}
+
+
+def replay_delete_field_simulate(label, inputs):
+    """Native probe of the unique_together clause: fields a, ab, b, ba, c; every unique_together made of 1-2 entries
+    over them; every field deleted in turn.  Expected: the deleted name struck from each entry, empty entries dropped,
+    every other member kept."""
+    import itertools
+    from django.db import models
+    from django_evolution.mutations import DeleteField
+    from django_evolution.db.state import DatabaseState
+    from django_evolution.signature import (ProjectSignature, AppSignature, ModelSignature, FieldSignature)
+    names = ['a', 'ab', 'b', 'ba', 'c']
+    entries = [e for r in (1, 2) for e in itertools.permutations(names, r)]
+    for uts in [[e] for e in entries] + [[e1, e2] for e1 in entries[:8] for e2 in entries[5:12]]:
+        for victim in names:
+            project_sig = ProjectSignature()
+            app_sig = AppSignature('tests')
+            model_sig = ModelSignature('TestModel', 'tests_testmodel')
+            model_sig.add_field_sig(FieldSignature('id', models.AutoField, {'primary_key': True}))
+            for n in names:
+                model_sig.add_field_sig(FieldSignature(n, models.IntegerField, {}))
+            model_sig.unique_together = [tuple(e) for e in uts]
+            app_sig.add_model_sig(model_sig)
+            project_sig.add_app_sig(app_sig)
+            DeleteField('TestModel', victim).run_simulation(
+                app_label='tests', project_sig=project_sig, database_state=DatabaseState('default', scan=False),
+                database='default')
+            want = [tuple(n for n in e if n != victim) for e in uts]
+            want = [e for e in want if e]
+            got = [tuple(e) for e in model_sig.unique_together]
+            if got != want:
+                return {'reproduced': True, 'inputs': {'unique_together': [list(e) for e in uts], 'deleted': victim},
+                        'got': [list(e) for e in got], 'want': [list(e) for e in want]}
+    return {'reproduced': False, 'note': 'all probes satisfy the unique_together clause'}
 
 
 def replay_add_field_simulate(label, inputs):
